@@ -159,6 +159,7 @@ func (fs *Findings) Open(prop string) []Finding {
 
 // MatchSig returns the key of the open finding of prop whose signature pattern matches sig.
 func (fs *Findings) MatchSig(prop, sig string) (string, bool) {
+	sig = strings.ReplaceAll(sig, " ", "_") // the findings file is whitespace-separated: patterns spell a space as _
 	for _, f := range fs.All {
 		if f.Fixed || f.Property != prop {
 			continue
